@@ -563,7 +563,12 @@ fn event_strategy(v: vmodel::Variant, strict: bool) -> impl Strategy<Value = DeE
         1 => bytes.prop_map(DeEvent::Seq),
         1 => vec(("[a-z]{0,4}", any::<u64>()), 0..3).prop_map(DeEvent::Map),
     ];
-    leaf.prop_recursive(2, 4, 1, |inner| prop_oneof![inner.clone().prop_map(|e| DeEvent::Some(Box::new(e))), inner.prop_map(|e| DeEvent::NewtypeStruct(Box::new(e)))])
+    let leaf = leaf.boxed();
+    prop_oneof![
+        20 => leaf.clone(),
+        1 => leaf.clone().prop_map(|e| DeEvent::Some(Box::new(e))),
+        1 => leaf.prop_map(|e| DeEvent::NewtypeStruct(Box::new(e))),
+    ]
 }
 
 fn run_mock(ctx: &Ctx) -> CheckResult {
